@@ -543,7 +543,13 @@ Definition op_fill (m : mode) (st : state) (v : nat) (a : varg) (s e : option ia
       end in
     match num_to_raw m (v_kind vw) true p with
     | None => fail stv TypeError []
-    | Some bs =>
+    | Some bs0 =>
+        (* goja: bigInt64Array.toRaw = toBigInt64(v).Uint64(): big.Int.Uint64 of a negative number is
+           the low 64 bits of its MAGNITUDE *)
+        let bs := match m, v_kind vw, p with
+                  | MI, BigInt64, PBig z => le_bytes 8 (Z.abs (wrap_s 64 z))
+                  | _, _, _ => bs0
+                  end in
         let k := rel_idx rs l in
         let final := rel_idx re l in
         if is_det stv (v_buf vw) then fail stv TypeError [] else
